@@ -46,6 +46,8 @@ def run_scenario(interval, timeout, inputs, reset_ticks=1, matching=True):
     cfg = H.HeartbeatConfig(message=MSG, response_match=(lambda m: m is RESP), interval=interval * TICK, timeout=timeout * TICK)
     mgr = H.HeartbeatManager(loop, sock, cfg)
 
+    running = [False]        # the harness's own view of start()/stop() calls, not the manager's private state
+
     async def main():
         for inp in inputs:
             t = inp[-1]
@@ -57,15 +59,17 @@ def run_scenario(interval, timeout, inputs, reset_ticks=1, matching=True):
                 sock.is_connected = bool(inp[1])
                 rec.append("conn %d %d" % (1 if inp[1] else 0, t))
             elif k == "start":
-                started = bool(mgr._heartbeat_tasks)
+                started = running[0]
                 await mgr.start()
+                running[0] = True
                 if not started:
                     rec.append("start %d" % t)
                     await asyncio.sleep(0)      # both loops take their first step
                     await asyncio.sleep(0)
             elif k == "stop":
-                started = bool(mgr._heartbeat_tasks)
+                started = running[0]
                 await mgr.stop()
+                running[0] = False
                 if started:
                     rec.append("stop %d" % t)
             elif k == "resp":
